@@ -6,6 +6,7 @@ package sw
 import (
 	"context"
 	"encoding/json"
+	"errors"
 	"fmt"
 	"io"
 	"log"
@@ -165,6 +166,27 @@ func run(r *ev.Run) {
 			r.Note("world_features", k)
 		}
 	}
+	// one world with dangling edge values: directed relation constraints only
+	{
+		w := genSearchWorldOpt(r.Rand("dangling-world"), "dg", 14, false, false, true)
+		wid := "world-dangling;"
+		if r.Only(wid) {
+			if modes, err := buildModes(w); err != nil {
+				r.Inconclusive("cannot index world: " + err.Error())
+			} else {
+				g := &cgen{rng: r.Rand("constraints/dangling"), w: w}
+				for ci, c := range g.directedDangling() {
+					checkConstraint(r, w, wid, ci, c, modes[:2], g)
+				}
+				r.Count("worlds", 1)
+				for k, n := range w.features {
+					r.Count("feature:"+k, n)
+					r.Note("world_features", k)
+				}
+			}
+		}
+	}
+	r.Require("world_features", "dangling-edge/camliMember", "dangling-edge/camliPath", "dangling-edge/seeAlso")
 	r.Require("world_features", "custom-edge/seeAlso", "custom-edge/seeAlso-removed", "custom-edge/seeAlso-superseded", "custom-edge/camliContent-names-permanode",
 		"relation-edge-type/parent/custom:seeAlso", "relation-edge-type/parent/custom:camliContent", "relation-edge-type/child/custom:seeAlso", "relation-edge-type/child/custom:camliContent", "relation-edge-type/parent/default-edge", "relation-edge-type/parent/non-ref-attribute",
 		"date-attr/dateCreated", "date-attr/startDate", "date-attr/paymentDueDate", "date-attr/datePublished", "date-attr/dateModified", "date-attr/notation/Z", "date-attr/notation/+00:00", "date-attr/notation/+02:00", "date-attr/notation/-05:30", "date-attr/notation/unparsable", "date-attr/two-on-one-permanode")
@@ -347,6 +369,10 @@ func judge(r *ev.Run, w *sworld, wid string, c *search.Constraint, cj []byte, st
 			r.Note("outcomes", "refusal-timeless-match")
 		case strings.Contains(err.Error(), "[Recursive]Contains constraint should have"):
 			ok = false
+		case len(w.dangling) > 0 && hasChildRelation(c) && errors.Is(err, os.ErrNotExist):
+			// one edge value naming a blob the index has never seen makes the whole query fail
+			r.Violation("dangling-relative-fails-query/child", fmt.Sprintf("%s [%s]: the query fails with %q because some permanode's edge attribute names a blob that is not indexed; the reference has %d matches (constraint %s, sort %s, limit %d)", wid, modeName, err, len(M), cj, sortNames[st], lim), rec)
+			return
 		}
 		if ok {
 			r.Note("outcomes", "refusal")
